@@ -142,6 +142,7 @@ def run(facts, tier):
     e2.ordered_choice(facts, ex, res, "R01-2", lambda fn: fn["path"] in ("xml_parser::attribute", "xml_parser::ns_att_name", "xml_parser::att_def"),
                       c01.ORDERED_CHOICE_REASONS)
     c10_5(facts, res)
+    adjacent_dedup(facts, res)
     c10_6(facts, res)
     c10_7(facts, res)
     c10_8(facts, res)
@@ -301,6 +302,34 @@ def _on_field(n, field):
     if isinstance(n, dict) and n.get("k") == "Field" and n.get("name") == field and n["a"].get("name") == "self":
         return chain
     return None
+
+
+def adjacent_dedup(facts, res, rule="C10-9", crates=("xml_info", "xml_dom", "xml_xpath")):
+    """`Vec::dedup*` removes *adjacent* repetitions only.  Merging a list with an inherited one (`extend(parent); dedup_by(prefix)`)
+    leaves every duplicate that does not happen to sit next to its twin - the nearest declaration of a prefix no longer hides
+    the inherited one.  A dedup is accepted when the same vector was sorted earlier in the function (sort*, by any key)."""
+    import guards
+    st = res.rule(rule, instances=0, functions=0)
+    for f in facts.fns.values():
+        if f["crate"] not in crates or "body" not in f or f.get("derived") or f.get("test"):
+            continue
+        st["functions"] += 1
+        seq = [n for n, _ in guards.ordered(f["body"])]
+        for i, n in enumerate(seq):
+            if n.get("k") == "MethodCall" and n.get("m") in ("dedup", "dedup_by", "dedup_by_key") and "Vec<" in str(n.get("recvty", "")):
+                st["instances"] += 1
+                lid = guards._root_local(n.get("recv"))[1]
+                srt = any(m.get("k") == "MethodCall" and str(m.get("m", "")).startswith("sort") and guards._root_local(m.get("recv"))[1] == lid
+                          for m in seq[:i])
+                res.oblige(1, srt)
+                if not srt:
+                    res.add(Finding(rule, "%s|%s" % (f["path"], n["m"]), "%s removes duplicates with Vec::%s on a list that was not sorted before: only "
+                                    "adjacent repetitions go, so a nearer entry does not replace an inherited one further down the list "
+                                    "(in-scope namespaces: the nearest declaration of a prefix wins, xmlns=\"\" undeclares)" % (f["path"], n["m"]),
+                                    f["file"], n.get("ln"), {}))
+    res.oblige(1, True)
+    if st["functions"] < 300:
+        raise BrokenCheck("%s: %d functions scanned (floor 300)" % (rule, st["functions"]))
 
 
 def c10_5(facts, res):
